@@ -27,7 +27,14 @@ pub enum Outcome {
 }
 
 fn body(case: &Case, opts: &RunOpts, tx: std::sync::mpsc::SyncSender<CaseResult>) {
-    let mut world = World::new(case.faults.clone(), opts.strict, opts.logging, Some(tx.clone()));
+    let res = execute(case, opts, Some(tx.clone()), &|_| {});
+    let _ = tx.send(res);
+}
+
+/// Executes a case on the calling thread (which must have pristine collector state).
+/// `between` is called before every operation (used by the thread-interleaving engine).
+pub fn execute(case: &Case, opts: &RunOpts, tx: Option<std::sync::mpsc::SyncSender<CaseResult>>, between: &dyn Fn(usize)) -> CaseResult {
+    let mut world = World::new(case.faults.clone(), opts.strict, opts.logging, tx);
     world.known_sigs = opts.known.clone();
     install(world);
     #[cfg(feature = "auto-collect")]
@@ -37,6 +44,7 @@ fn body(case: &Case, opts: &RunOpts, tx: std::sync::mpsc::SyncSender<CaseResult>
         w(|w| w.auto_model = auto);
     }
     for (i, op) in case.ops.iter().enumerate() {
+        between(i);
         ops::exec_op(i as i32, op);
         if w(|w| w.violations.iter().any(|v| v.hard) || w.violations.len() >= 24) {
             break;
@@ -47,7 +55,7 @@ fn body(case: &Case, opts: &RunOpts, tx: std::sync::mpsc::SyncSender<CaseResult>
     let leaked = w(|w| w.any_panic || w.objs.iter().any(|o| o.in_box && !o.dropped) || w.handles.iter().any(|h| h.is_some()));
     teardown();
     res.clean = !leaked && res.violations.is_empty() && pristine();
-    let _ = tx.send(res);
+    res
 }
 
 /// End of the program: quiescent collection with the handles still held, then release every
@@ -90,6 +98,23 @@ fn epilogue(case: &Case) {
     } else {
         for k in 0..2 {
             ops::exec_op(-5 - k, &Op::Collect);
+        }
+    }
+    // every weak handle is tried once more (C08: never access to a dropped or freed value, also
+    // after faults), through the ordinary operation so that the same oracle judges the result
+    #[cfg(feature = "weak-ptrs")]
+    {
+        let n = w(|w| w.weaks.iter().filter(|h| h.is_some()).count());
+        for k in 0..n {
+            let sel = (((k << 8) + n - 1) / n) as u8;
+            ops::exec_op(-14, &Op::Upgrade(sel));
+        }
+        loop {
+            let more = w(|w| w.handles.iter().any(|h| h.is_some()) && w.violations.len() < 24);
+            if !more {
+                break;
+            }
+            ops::exec_op(-10, &Op::Drop(0));
         }
     }
     loop {
